@@ -180,10 +180,10 @@ class SymInt(object):
         raise Concretize("hash(SymInt)")
 
     def __index__(self):
-        raise Concretize("index(SymInt)")
+        return int(_render_value(self))
 
     def __int__(self):
-        raise Concretize("int(SymInt)")
+        return int(_render_value(self))
 
     def __deepcopy__(self, memo):
         return self
@@ -262,7 +262,16 @@ class SymScalar(object):
         raise Concretize("hash(SymScalar)")
 
     def __index__(self):
-        raise Concretize("index(SymScalar)")
+        v = _render_value(self)
+        if not isinstance(v, int):
+            raise TypeError("'%s' object cannot be interpreted as an integer" % type(v).__name__)
+        return int(v)
+
+    def __int__(self):
+        return int(_render_value(self))
+
+    def __float__(self):
+        return float(_render_value(self))
 
     def __deepcopy__(self, memo):
         return self
